@@ -487,6 +487,18 @@ def expected_light_lo(kind, clsname):
 KINDMAP = {"f2": "F2", "fl": "FL", "f3": "F3", "g1": "g1", "gl": "gL", "g4": "g4"}
 
 
+def sec_parity_flag(rep):
+    """ObservableName.is_parity_violating is the spec's parity classification of every kind."""
+    from yadism import observable_name as on
+
+    rep.under_contract(on.ObservableName.is_parity_violating.fget)
+    for kind in list(on.sfs) + list(on.xs):
+        for flavor in ("light", "total", "charm"):
+            rep.cases += 1
+            got = on.ObservableName(f"{kind}_{flavor}").is_parity_violating
+            rep.add(ob_eval(f"C02/ObservableName({kind}_{flavor}).is_parity_violating == {kind in H.PV_KINDS}", got == (kind in H.PV_KINDS), detail=f"got {got}", inputs={} if got == (kind in H.PV_KINDS) else {"kind": kind, "got": got}))
+
+
 def sec_lo(rep):
     """LO() of every partonic channel class (found by module scan)."""
     from yadism.coefficient_functions.partonic_channel import RSL
@@ -586,7 +598,7 @@ def sec_lo_view(rep):
                                 c = rsl.loc(sy.x, rsl.args["loc"])
                                 for p_, w_ in k.partons.items():
                                     view[p_] = view.get(p_, 0) + w_ * c
-                        is_pv = on.is_parity_violating
+                        is_pv = kind in H.PV_KINDS  # spec, not the code's own flag
                         if kind in ("FL", "gL"):
                             exp = {}
                         elif process == "CC":
@@ -639,7 +651,7 @@ def sec_lo_view_heavyness(rep):
                                     for p_, w_ in k.partons.items():
                                         view[p_] = view.get(p_, 0) + w_ * c0
                             on = H.obs_name(kind, flavor)
-                            is_pv = on.is_parity_violating
+                            is_pv = kind in H.PV_KINDS  # spec, not the code's own flag
                             exp = {}
                             if kind not in ("FL", "gL"):
                                 hq = flav_q.get(flavor)
@@ -790,7 +802,7 @@ def run(rep, tier, seed, only=None):
         "gluon/singlet/valence weights specified as flavour averages (charge average), see DESIGN C02",
         "identity tolerance 1e-12 relative (concrete float sub-computations such as np.mean of charges)",
     )
-    secs = [("couplings", sec_couplings), ("ckm", sec_ckm), ("weights", sec_weights), ("weightsframe", sec_weights_history), ("lo", sec_lo), ("lo_view", sec_lo_view), ("heavyness", sec_lo_view_heavyness), ("grid", sec_grid_node)]
+    secs = [("parityflag", sec_parity_flag), ("couplings", sec_couplings), ("ckm", sec_ckm), ("weights", sec_weights), ("weightsframe", sec_weights_history), ("lo", sec_lo), ("lo_view", sec_lo_view), ("heavyness", sec_lo_view_heavyness), ("grid", sec_grid_node)]
     for nm, f in secs:
         if only and only not in nm:
             continue
